@@ -15,7 +15,7 @@ CC = {"CC_U<=": 2, "CC_U>=": 1, "CC_S<": 2, "CC_S>": 3, "CC_S<=": 3, "CC_S>=": 2
 
 
 class Gen(object):
-    def __init__(self, rng, widths=None, ids_per_width=2, allow_mem=True, allow_div=True, ptr=32):
+    def __init__(self, rng, widths=None, ids_per_width=2, allow_mem=True, allow_div=True, ptr=32, div_max_w=64):
         from miasm.expression import expression as m
         self.m = m
         self.rng = rng
@@ -24,6 +24,7 @@ class Gen(object):
         self.allow_mem = allow_mem
         self.allow_div = allow_div
         self.ptr = ptr
+        self.div_max_w = div_max_w
 
     def ident(self, w):
         return self.m.ExprId("%s%d" % ("abcd"[self.rng.randrange(self.nid)], w), w)
@@ -73,7 +74,7 @@ class Gen(object):
         if c < 0.60:
             cnt = self.const(w) if r.random() < 0.7 else self.expr(w, d)
             return m.ExprOp(r.choice(SHIFT), self.expr(w, d), cnt)
-        if c < 0.64 and self.allow_div:
+        if c < 0.64 and self.allow_div and w <= self.div_max_w:
             return m.ExprOp(r.choice(DIVS), self.expr(w, d), self.expr(w, d))
         if c < 0.72:
             cw = r.choice([1, 1, w])
